@@ -92,6 +92,9 @@ static bool merge_clash(const Basic &e, const Pairs &sigma)
 {
     if (!has_kind(e, is_binder))
         return false;
+    // a Subs node of e that already sends two variables to the same symbol is rebuilt through the same path
+    if (has_kind(e, is_clash_subs))
+        return true;
     for (size_t i = 0; i < sigma.size(); i++)
         for (size_t j = i + 1; j < sigma.size(); j++)
             if (is_a<Symbol>(*sigma[i].second) && eq(*sigma[i].second, *sigma[j].second))
@@ -260,9 +263,14 @@ std::string hx_run(const std::string &line, std::string &oracle)
         oracle = "FAIL:cache:cached " + vsexp::dump(rc) + " uncached " + vsexp::dump(ru);
         return out;
     }
+    bool binder = has_kind(*e, is_binder);
     if (identity) {
         stat("identity_cases");
-        if (!eq(*R, *e)) {
+        if (!eq(*R, *e) && binder && symkeys) {
+            // Derivative / Subs nodes may be rewritten into an equivalent form (Subs with a symbol point becomes a
+            // Derivative, ...): not `eq`, so the value oracle below decides
+            stat("binder_identity_not_eq_value_checked");
+        } else if (!eq(*R, *e)) {
             // SubsVisitor's exponent path (single key b**k) rewrites b**e to w**(e/k) also for a non-integer
             // quotient: x**3 with {x**2: x**2} becomes (x**2)**(3/2)   (docs/C11.md, D-C11-2)
             bool powpath = mode == "subs" && sigma.size() == 1 && is_a<Pow>(*sigma[0].first);
@@ -282,12 +290,13 @@ std::string hx_run(const std::string &line, std::string &oracle)
             any = true;
     if (!any) {
         stat("absent_key_cases");
-        if (!eq(*R, *e)) {
+        if (!eq(*R, *e) && binder) {
+            stat("binder_absent_not_eq_value_checked");
+        } else if (!eq(*R, *e)) {
             oracle = "FAIL:absent:no key occurs free in e but the result is " + out;
             return out;
         }
     }
-    bool binder = has_kind(*e, is_binder);
     if (!binder && mode == "subs") {
         // the other three entry points must agree on derivative-free expressions
         static const char *others[] = {"xreplace", "msubs", "ssubs"};
@@ -467,9 +476,7 @@ void hx_gen(Rng &rng, const std::string &tier)
     // Derivative / Subs inside e: subs only
     for (int i = 0; i < 120 * scale; i++) {
         try {
-            B e0 = gexpr(g, 2, K_FSYM | K_ELEM);
-            RCP<const Symbol> x = symbol(g.r.coin(3, 4) ? "x" : "y");
-            B e1 = e0->diff(x);
+            B e1 = binder_expr(g, K_FSYM | K_ELEM);
             if (!has_kind(*e1, is_binder))
                 continue;
             Pairs sigma;
